@@ -6,7 +6,7 @@ def run(res, a):
         if a.replay.endswith(".sched"): return conc.replay(res, "C10", a.replay)
         return apitrace.replay(res, "C10", a.replay)
     vlib.proof_stage(res, "C10", files=["C10", "C10conc"])
-    vlib.corpus_programs(res, "C10", {"heap_delete_incompatible.c": "impl:heap-delete-incompatible"})
+    vlib.corpus_programs(res, "C10", {"heap_delete_incompatible.c": "impl:heap-delete-incompatible", "destroy_frees_adopted.c": "impl:destroy-frees-adopted"})
     big = a.tier == "thorough"
     plan = [("heaps", 60 if big else 16, 400), ("boundary", 4, 200)]
     exe = apitrace.build(res)
